@@ -159,12 +159,21 @@ class Pairs(Facet):
                 ):
                     res = fn()
                     require(list(res.letters) == list(exp), f"setop-{opname}-same-letter-other-fields", f"{x} {opname} {y}({variant}): letters {tuple(res.letters)} != {tuple(exp)}")
+                    if opname in ("&", "-", "intersect_with", "difference_with"):
+                        # what is left of the receiver consists of the RECEIVER's dimensions (names, sizes)
+                        require(tuple(res.shape) == tuple(len(ALPHA[l]["items"]) for l in exp) and tuple(res.names) == tuple(ALPHA[l]["name"] for l in exp),
+                                f"setop-{opname}-members-not-from-receiver", f"{x} {opname} {y}({variant}): names {res.names} shape {res.shape}")
                     require(len(set(res.letters)) == len(res.letters), f"setop-{opname}-same-letter-other-fields", "letters not unique")
                 require(raises(lambda: X + Yv), "plus-accepts-overlap", f"{x} + {y}({variant}) did not raise")
                 if len(y) == 1:
                     Dv = mkdim(y[0], variant)
                     require(list((X - Dv).letters) == m_diff(x, y), "setop---dimension-same-letter-other-fields", f"{x} - {y}({variant})")
                     require(list((X & Dv).letters) == m_inter(x, y), "setop-&-dimension-same-letter-other-fields", f"{x} & {y}({variant})")
+                    ri = X & Dv
+                    require(tuple(ri.shape) == tuple(len(ALPHA[l]["items"]) for l in m_inter(x, y)) and tuple(ri.names) == tuple(ALPHA[l]["name"] for l in m_inter(x, y)),
+                            "setop-&-members-not-from-receiver", f"{x} & Dimension {y}({variant}): names {ri.names} shape {ri.shape}")
+                    ri2 = X.intersect_with(Dv)
+                    require(tuple(ri2.shape) == tuple(ri.shape) and tuple(ri2.names) == tuple(ri.names), "setop-&-members-not-from-receiver", "intersect_with(Dimension)")
                     require(list((X ^ Dv).letters) == m_union(m_diff(x, y), m_diff(y, x)), "setop-^-dimension-same-letter-other-fields", f"{x} ^ {y}({variant})")
                     require(list((X | Dv).letters) == m_union(x, y), "setop-|-dimension-same-letter-other-fields", f"{x} | {y}({variant})")
         if len(y) == 1:  # bare Dimension as right operand
